@@ -76,7 +76,7 @@ theorem settleQuiet_inv {x : Option Nat} {w : World} (h : WInvX x w) {e : Ent} (
     rw [a2] at hcd; injection hcd with hcd; subst hcd
     exact (h.connReq cr c' d' a1 a2 a3).2 e he hd
   · intro p pr cr c hp' hcq hc hcd
-    have hnf := h.connReqLive p pr cr c d hp' hcq hc hcd
+    have hnf := (h.connReqLive p pr cr c hp' hcq hc).2 d hcd
     exact (h.connReq cr c d hc hcd hnf).2 e he hd
 
 /-- what the purge loops leave behind -/
